@@ -33,6 +33,7 @@ import (
 	authtypes "github.com/cosmos/cosmos-sdk/x/auth/types"
 	banktypes "github.com/cosmos/cosmos-sdk/x/bank/types"
 	govtypes "github.com/cosmos/cosmos-sdk/x/gov/types"
+	govv1 "github.com/cosmos/cosmos-sdk/x/gov/types/v1"
 	stakingtypes "github.com/cosmos/cosmos-sdk/x/staking/types"
 	consumertypes "github.com/cosmos/interchain-security/v6/x/ccv/consumer/types"
 
@@ -131,6 +132,9 @@ type World struct {
 	Feeder   *Account
 	Bot      *Account
 	Admin    *Account   // pool creator; allowed pool creator
+	// Delegator holds the genesis validator's whole delegation: the only voting power at genesis. It submits and
+	// votes real governance proposals (gov.go); it never does anything else.
+	Delegator *Account
 	Sinks    []*Account // passive recipients: never sign, start empty
 	ByAddr   map[string]*Account
 	Height   int64
@@ -194,6 +198,7 @@ func NewWorldOn(sc Scenario, diskDir string) *World {
 	w.Feeder = mkAccount("feeder")
 	w.Bot = mkAccount("bot")
 	w.Admin = mkAccount("admin")
+	w.Delegator = mkAccount("delegator")
 	for i := 0; i < 3; i++ {
 		w.Sinks = append(w.Sinks, mkAccount(fmt.Sprintf("sink%d", i)))
 	}
@@ -204,7 +209,7 @@ func NewWorldOn(sc Scenario, diskDir string) *World {
 
 func (w *World) AllKeyed() []*Account {
 	out := append([]*Account{}, w.Accounts...)
-	return append(out, w.Feeder, w.Bot, w.Admin)
+	return append(out, w.Feeder, w.Bot, w.Admin, w.Delegator)
 }
 
 func (w *World) buildGenesis() ([]byte, []byte) {
@@ -241,8 +246,8 @@ func (w *World) buildGenesis() ([]byte, []byte) {
 	var genAccs []authtypes.GenesisAccount
 	var balances []banktypes.Balance
 	total := sdk.NewCoins()
-	delegator := mkAccount("delegator")
-	keyed := append(w.AllKeyed(), delegator)
+	delegator := w.Delegator
+	keyed := w.AllKeyed() // the delegator is the last keyed account
 	for i, a := range keyed {
 		a.Num = uint64(i)
 		w.ByAddr[a.Addr.String()] = a
@@ -305,6 +310,16 @@ func (w *World) buildGenesis() ([]byte, []byte) {
 	cg.Provider.ConsensusState.NextValidatorsHash = cmttypes.NewValidatorSet(vals).Hash()
 	cg.Params.Enabled = true
 	gs[consumertypes.ModuleName] = cdc.MustMarshalJSON(cg)
+
+	// governance: proposals are real (submitted and voted by the delegator, executed by the gov end-blocker); the
+	// voting period is a few seconds so that a proposal is tallied one or two blocks after its submission
+	govGen := govv1.DefaultGenesisState()
+	vp, evp, dp := GovVotingPeriod, GovVotingPeriod/3, 48*time.Hour
+	govGen.Params.VotingPeriod, govGen.Params.ExpeditedVotingPeriod, govGen.Params.MaxDepositPeriod = &vp, &evp, &dp
+	govGen.Params.MinDeposit = sdk.NewCoins(sdk.NewCoin(ptypes.Elys, sdkmath.NewInt(GovMinDeposit)))
+	govGen.Params.ExpeditedMinDeposit = sdk.NewCoins(sdk.NewCoin(ptypes.Elys, sdkmath.NewInt(2*GovMinDeposit)))
+	govGen.Params.Quorum = "0.000001" // users may out-stake the genesis delegation; they never vote
+	gs[govtypes.ModuleName] = cdc.MustMarshalJSON(govGen)
 
 	// amm params
 	ammGen := ammtypes.DefaultGenesis()
